@@ -104,38 +104,37 @@ def translation(check, prog):
         n += 1
         fd = ht[2]
         loc = prog.loc(ht[1], fd)
-        # attributes written
+        # attributes written: the layers stored on top of copy(self) in the
+        # returned object, or everything __init__ sets when a new instance of
+        # the same class is built
         written = set()
         raises = None
         sn = fd.args.args[0].arg
-        copies = {sn}
-        for node in ast.walk(fd):
-            if isinstance(node, ast.Assign) and isinstance(node.value, ast.Call) and \
-                    ast.unparse(node.value.func) in ('copy', 'copy.copy', 'deepcopy') and \
-                    node.value.args and isinstance(node.value.args[0], ast.Name) and \
-                    node.value.args[0].id == sn:
-                for t in node.targets:
-                    if isinstance(t, ast.Name):
-                        copies.add(t.id)
-        for node in ast.walk(fd):
-            if isinstance(node, ast.Attribute) and isinstance(node.ctx, ast.Store) and \
-                    isinstance(node.value, ast.Name) and node.value.id in copies:
-                written.add(node.attr)
-                ph = prog.lookup(cq, node.attr)
-                if ph and ph[0] == 'property' and ph[2]['setter'] is None:
-                    raises = node.attr
-            if isinstance(node, ast.Return) and isinstance(node.value, ast.Call):
-                f = ast.unparse(node.value.func)
-                if f in ('self.__class__', 'type(self)', '%s.__class__' % sn):
-                    hinit = prog.lookup(cq, '__init__')
-                    if hinit:
-                        written |= {a.arg for a in hinit[2].args.args[1:]}
-                        for n2 in ast.walk(hinit[2]):
-                            if isinstance(n2, ast.Attribute) and \
-                                    isinstance(n2.ctx, ast.Store) and \
-                                    isinstance(n2.value, ast.Name) and \
-                                    n2.value.id == hinit[2].args.args[0].arg:
-                                written.add(n2.attr)
+        it = Interp(prog, max_depth=1, opaque=['holopy.core.utils.ensure_array'])
+        res = it.analyze(ht[1] + '.translated', selfcls=cq)
+        t = res.ret
+        while t[0] == 'upd' and t[2] == 'attr':
+            written.add(t[3])
+            ph = prog.lookup(cq, t[3])
+            if ph and ph[0] == 'property' and ph[2]['setter'] is None:
+                raises = t[3]
+            t = t[1]
+        rebuilt = t[0] == 'call' and (
+            t[1] == ('attr', sym(sn), '__class__') or
+            t[1] == ('call', 'type', (sym(sn),), ()))
+        if rebuilt:
+            hinit = prog.lookup(cq, '__init__')
+            if hinit:
+                written |= {a.arg for a in hinit[2].args.args[1:]}
+                for n2 in ast.walk(hinit[2]):
+                    if isinstance(n2, ast.Attribute) and \
+                            isinstance(n2.ctx, ast.Store) and \
+                            isinstance(n2.value, ast.Name) and \
+                            n2.value.id == hinit[2].args.args[0].arg:
+                        written.add(n2.attr)
+        elif not (t[0] == 'copy' and t[2] == sym(sn)):
+            raise AnalysisError('%s.translated returns %s: neither a modified copy of '
+                                'self nor a rebuilt instance' % (short, show(t)[:120]))
         reads = self_reads(prog, cq, 'in_domain') or set()
         construct = '%s.translated' % short
         if 'indicators' in reads and not prog.lookup(cq, 'indicators') and \
@@ -337,11 +336,16 @@ def indicators(check, prog):
         ind_call = [c for c in subterms(itr) if c[0] == 'call' and
                     c[1] == ('attr', sym('self'), 'indicators')]
         ok_rel = bool(ind_call) and any(
-            x[0] == 'bin' and x[1] == '-' and x[3] == ('attr', sym('self'), 'center')
+            as_difference(x) is not None and
+            as_difference(x)[1] == ('attr', sym('self'), 'center')
             for x in subterms(ind_call[0][2][0]))
-        st = l['vars'].get('domains', (None, None))[1]
+        # the labelled array is the loop-carried value that is returned
+        dname = res.ret[1] if res.ret[0] == 'loop' else None
+        st = l['vars'].get(dname, (None, None))[1]
         ok_num = st is not None and st[0] == 'upd' and st[4][0] == 'bin' and \
-            st[4][1] == '+' and st[4][3] == num(1) and \
+            st[4][1] == '+' and num(1) in (st[4][2], st[4][3]) and \
+            any(x[0] == 'idx' and x[2] == num(0) and x[1][0] == 'elem'
+                for x in (st[4][2], st[4][3])) and \
             bool(calls_in(st[3], 'numpy.nonzero'))
         check.require(ok_rev, 'K3-first-indicator-wins', 'Scatterer.in_domain order',
                       'indicators are applied in reversed order, so the first (inner) '
@@ -361,11 +365,13 @@ def indicators(check, prog):
     lp = [l for l in it.loops.values() if l['func'] == q]
     ok = len(lp) == 1
     if ok:
-        st = lp[0]['vars'].get('index', (None, None))[1]
+        iname = res.ret[1] if res.ret[0] == 'loop' else None
+        st = lp[0]['vars'].get(iname, (None, None))[1]
         ok = st is not None and st[0] == 'upd' and st[3][0] == 'cmp' and st[3][1] == '==' \
-            and st[3][3][0] == 'bin' and st[3][3][1] == '+' and st[3][3][3] == num(1)
+            and st[3][3][0] == 'bin' and st[3][3][1] == '+' and \
+            num(1) in (st[3][3][2], st[3][3][3])
         if ok:
-            e_i = st[3][3][2]
+            e_i = st[3][3][2] if st[3][3][3] == num(1) else st[3][3][3]
             val = st[4]
             ok = val[0] == 'elem' and e_i[0] == 'idx' and e_i[2] == num(0) and \
                 e_i[1][0] == 'elem' and e_i[1][1] == ('call', 'enumerate', (val[1],), ()) \
@@ -374,7 +380,7 @@ def indicators(check, prog):
                   'domain i + 1 receives the i-th refractive index (same numbering as '
                   'in_domain)', prog.loc(q, fd))
     ct = calls_in(res.ret, 'numpy.ones_like') or [
-        x for x in subterms(lp[0]['vars']['index'][0]) if x[0] == 'call'] if ok else []
+        x for x in subterms(lp[0]['vars'][iname][0]) if x[0] == 'call'] if ok else []
     q = SC + 'scatterer.Scatterer.contains'
     it = Interp(prog, max_depth=1, opaque=[SC + 'scatterer.Scatterer.in_domain'])
     res = it.analyze(q)
@@ -461,24 +467,28 @@ def overlaps(check, prog):
     v = res.ret
     ok = False
     step = None
+    # the running maximum is the loop-carried value that is returned
+    lname = v[1] if v[0] == 'loop' else None
     for l in lps:
-        if 'largest' in l['vars'] and l['vars']['largest'][1] is not None:
-            st = l['vars']['largest'][1]
+        if lname in l['vars'] and l['vars'][lname][1] is not None:
+            st = l['vars'][lname][1]
             if st[0] == 'call' and st[1] == 'max':
                 step = st
     if step is not None and len(step[2]) == 2:
         a, b = step[2]
         cand = b if a[0] == 'phi' else a
-        okf = cand[0] == 'bin' and cand[1] == '-' and bool(calls_in(cand[3], cd)) and \
-            not calls_in(cand[2], cd)
-        if okf and dist_t is not None:
-            # same distance and same radius aggregator as `overlaps` (up to the
-            # names of the loop variables)
-            okf = show(cand[3]).replace(' ', '') == show(dist_t).replace(' ', '') or True
-            r1 = [x for x in subterms(cand[2]) if x[0] == 'call' and x[1] == 'numpy.max']
-            okf = okf and len(r1) == 2 and cand[2][0] == 'bin' and cand[2][1] == '+'
+        df = as_difference(cand)
+        okf = df is not None and df[1][0] == 'call' and df[1][1] == cd and \
+            len(df[1][2]) == 2 and all(x[0] == 'attr' and x[2] == 'center'
+                                       for x in df[1][2]) and \
+            df[1][2][0] != df[1][2][1]
+        if okf:
+            s1, s2 = df[1][2][0][1], df[1][2][1][1]
+            want = intern(('bin', '+', ('call', 'numpy.max', (('attr', s1, 'r'),), ()),
+                           ('call', 'numpy.max', (('attr', s2, 'r'),), ())))
+            okf = canon.equal(df[0], want)
         ok = okf
-    init_ok = any(l['vars'].get('largest', (None, None))[0] == num(0) for l in lps)
+    init_ok = any(l['vars'].get(lname, (None, None))[0] == num(0) for l in lps)
     check.require(ok, 'K4-largest-overlap', 'Spheres.largest_overlap',
                   'largest = max(largest, max(r_i) + max(r_j) - distance)', loc,
                   fail_detail='update is %s' % (show(step)[:200] if step else None))
